@@ -16,9 +16,11 @@ import (
 	"math"
 	"math/big"
 	"sort"
+	"strings"
 
 	"golang.org/x/tools/go/ssa"
 
+	"decverif/internal/cdai"
 	"decverif/internal/model"
 	"decverif/internal/ob"
 )
@@ -30,6 +32,7 @@ func init() {
 
 func runOutParam(m *model.Model, s *ob.Set) {
 	const R = "OUTPARAM"
+	runOutParamNil(m, s)
 	whole := map[string]map[string]bool{
 		"Int":   {"SetBits": true, "SetInt64": true, "SetUint64": true, "Set": true, "SetString": true, "SetBytes": true},
 		"Rat":   {"SetInt": true, "SetInt64": true, "SetUint64": true, "SetFrac": true, "SetFrac64": true, "Set": true, "SetString": true, "SetFloat64": true},
@@ -55,82 +58,455 @@ func runOutParam(m *model.Model, s *ob.Set) {
 		if whole[kind] == nil {
 			continue
 		}
-		// values that denote the out-parameter object: the parameter, φs of it, results of math/big
-		// methods called on it that return their receiver (chaining)
-		isOut := map[ssa.Value]bool{fn.Params[1]: true}
-		for ch := true; ch; {
-			ch = false
-			for _, b := range fn.Blocks {
-				for _, in := range b.Instrs {
-					v, ok := in.(ssa.Value)
-					if !ok || isOut[v] || bigNamed(v.Type()) != kind {
-						continue
-					}
-					switch x := in.(type) {
-					case *ssa.Phi:
-						for _, e := range x.Edges {
-							if isOut[e] {
-								isOut[v], ch = true, true
-							}
+		isOut := outObjValues(fn, kind, bigNamed)
+		live := m.Live(fn)
+		n := len(fn.Blocks)
+		comps := []string{""}
+		if kind == "Rat" {
+			comps = []string{"Denom", "Num"} // both parts of the fraction, each on every path
+		}
+		for _, comp := range comps {
+			in := make([]int, n) // 0 unreached, 1 defined, 2 not (yet) defined
+			in[0] = 2
+			step := func(b *ssa.BasicBlock, st int, rec func(*ssa.Return, int)) int {
+				for _, ins := range b.Instrs {
+					switch x := ins.(type) {
+					case *ssa.Alloc:
+						if x.Heap && bigNamed(x.Type()) == kind {
+							st = 1
 						}
 					case *ssa.Call:
-						if cal := x.Call.StaticCallee(); cal != nil && cal.Signature.Recv() != nil && len(x.Call.Args) > 0 && isOut[x.Call.Args[0]] {
+						cal := model.Unthunk(x.Call.StaticCallee())
+						if cal == nil || cal.Signature.Recv() == nil || len(x.Call.Args) == 0 {
+							continue
+						}
+						recv := x.Call.Args[0]
+						if isOut[recv] {
+							if whole[kind][cal.Name()] {
+								st = 1
+							}
+							if kind == "Float" && cal.Name() == "SetPrec" {
+								if k, ok := model.ConstInt(x.Call.Args[1]); ok && k == 0 {
+									st = 1 // documented: the value becomes 0
+								}
+							}
+							continue
+						}
+						// z.Denom().SetBits(...): a write of the denominator through its accessor
+						if kind == "Rat" && bigNamed(recv.Type()) == "Int" {
+							if c2, ok := recv.(*ssa.Call); ok {
+								if cc := model.Unthunk(c2.Call.StaticCallee()); cc != nil && cc.Name() == comp && len(c2.Call.Args) > 0 && isOut[c2.Call.Args[0]] {
+									if whole["Int"][cal.Name()] {
+										st = 1
+									}
+								}
+							}
+						}
+					case *ssa.Return:
+						if rec != nil {
+							rec(x, st)
+						}
+					}
+				}
+				return st
+			}
+			work := []int{0}
+			for len(work) > 0 {
+				bi := work[len(work)-1]
+				work = work[:len(work)-1]
+				if !live[bi] {
+					continue
+				}
+				out := step(fn.Blocks[bi], in[bi], nil)
+				for _, ed := range model.LiveSuccs(fn.Blocks[bi]) {
+					if out > in[ed.To.Index] {
+						in[ed.To.Index] = out
+						work = append(work, ed.To.Index)
+					}
+				}
+			}
+			var bad []string
+			nret := 0
+			for bi, b := range fn.Blocks {
+				if in[bi] == 0 || !live[bi] {
+					continue
+				}
+				step(b, in[bi], func(r *ssa.Return, st int) {
+					if len(r.Results) == 0 {
+						return
+					}
+					if c, ok := r.Results[0].(*ssa.Const); ok && c.IsNil() {
+						return
+					}
+					nret++
+					if st != 1 {
+						what := "the result object"
+						if kind == "Rat" {
+							what = map[string]string{"Denom": "the denominator of the result", "Num": "the numerator of the result"}[comp]
+						}
+						bad = append(bad, fmt.Sprintf("%s: %s is returned without having been redefined on every path: a caller-supplied %s keeps part of its previous value", m.InstrPos(r), what, "*big."+kind))
+					}
+				})
+			}
+			c := name + "/" + fn.Params[1].Name()
+			if comp == "Num" {
+				c += "/numerator"
+			}
+			if len(bad) == 0 {
+				s.Ok(R, c, m.Pos(fn.Pos()), fmt.Sprintf("%d returning exit(s), the *big.%s is fully redefined on each", nret, kind))
+			} else {
+				s.Bad(R, c, m.Pos(fn.Pos()), bad[0], bad[1:]...)
+			}
+		}
+	}
+}
+
+// outObjValues: the values that denote the out-parameter object: the parameter, φs of it, results
+// of math/big methods called on it that return their receiver (chaining), heap allocations of the
+// same type (assigned to the result variable: they join the φ).
+func outObjValues(fn *ssa.Function, kind string, bigNamed func(types.Type) string) map[ssa.Value]bool {
+	isOut := map[ssa.Value]bool{fn.Params[1]: true}
+	for ch := true; ch; {
+		ch = false
+		for _, b := range fn.Blocks {
+			for _, in := range b.Instrs {
+				v, ok := in.(ssa.Value)
+				if !ok || isOut[v] || bigNamed(v.Type()) != kind {
+					continue
+				}
+				switch x := in.(type) {
+				case *ssa.Phi:
+					for _, e := range x.Edges {
+						if isOut[e] {
 							isOut[v], ch = true, true
 						}
-					case *ssa.Alloc:
-						// new(big.X) assigned to the result variable: joins the φ
-						if x.Heap {
-							isOut[v], ch = true, true
-						}
+					}
+				case *ssa.Call:
+					if cal := model.Unthunk(x.Call.StaticCallee()); cal != nil && cal.Signature.Recv() != nil && len(x.Call.Args) > 0 && isOut[x.Call.Args[0]] {
+						isOut[v], ch = true, true
+					}
+				case *ssa.Alloc:
+					if x.Heap {
+						isOut[v], ch = true, true
 					}
 				}
 			}
 		}
+	}
+	return isOut
+}
+
+func bigNamedType(t types.Type) string {
+	p, ok := t.(*types.Pointer)
+	if !ok {
+		return ""
+	}
+	n, ok := p.Elem().(*types.Named)
+	if !ok || n.Obj().Pkg() == nil || n.Obj().Pkg().Path() != "math/big" {
+		return ""
+	}
+	return n.Obj().Name()
+}
+
+// OUTPARAM <fn>/z/nil and Float/z/precision.
+//
+// (nil) Int, Rat and Float document that z may be nil: the parameter itself is the receiver of a
+// math/big method only where it is known not to be nil (behind the non-nil edge of a test of it);
+// everywhere else the receiver is the φ that the allocation joined.
+//
+// (precision) Float documents that a z of precision 0 gets max(⌈prec·log2(10)⌉, 64): the value
+// read by z.Prec() reaches a SetPrec of the result only along the edge on which it was found
+// non-zero (SetPrec(0) turns the result into 0).
+func runOutParamNil(m *model.Model, s *ob.Set) {
+	const R = "OUTPARAM"
+	for _, name := range []string{"(*Decimal).Int", "(*Decimal).Rat", "(*Decimal).Float"} {
+		fn := m.TryLookup(name)
+		if fn == nil || len(fn.Params) < 2 {
+			continue
+		}
+		z := fn.Params[1]
+		if _, isPtr := z.Type().(*types.Pointer); !isPtr {
+			continue
+		}
 		live := m.Live(fn)
-		n := len(fn.Blocks)
-		in := make([]int, n) // 0 unreached, 1 defined, 2 not (yet) defined
-		in[0] = 2
-		step := func(b *ssa.BasicBlock, st int, rec func(*ssa.Return, int)) int {
-			for _, ins := range b.Instrs {
-				switch x := ins.(type) {
-				case *ssa.Alloc:
-					if x.Heap && bigNamed(x.Type()) == kind {
-						st = 1
+		// tests of z against nil: the edge on which it is not nil
+		type edge struct {
+			b  *ssa.BasicBlock
+			si int
+		}
+		var nonNil []edge
+		for _, b := range fn.Blocks {
+			if !live[b.Index] || len(b.Instrs) == 0 {
+				continue
+			}
+			ifi, ok := b.Instrs[len(b.Instrs)-1].(*ssa.If)
+			if !ok {
+				continue
+			}
+			var walk func(c ssa.Value, tEdgeIsNil bool)
+			bo, ok := ifi.Cond.(*ssa.BinOp)
+			_ = walk
+			if !ok || (bo.Op != token.EQL && bo.Op != token.NEQ) {
+				continue
+			}
+			isNil := func(v ssa.Value) bool { c, ok := v.(*ssa.Const); return ok && c.IsNil() }
+			if !((bo.X == ssa.Value(z) && isNil(bo.Y)) || (bo.Y == ssa.Value(z) && isNil(bo.X))) {
+				continue
+			}
+			if bo.Op == token.EQL {
+				nonNil = append(nonNil, edge{b, 1})
+			} else {
+				nonNil = append(nonNil, edge{b, 0})
+			}
+		}
+		bad := ""
+		uses := 0
+		for _, b := range fn.Blocks {
+			if !live[b.Index] {
+				continue
+			}
+			for _, in := range b.Instrs {
+				c, ok := in.(*ssa.Call)
+				if !ok || len(c.Call.Args) == 0 || c.Call.Args[0] != ssa.Value(z) {
+					continue
+				}
+				cal := model.Unthunk(c.Call.StaticCallee())
+				if cal == nil || cal.Signature.Recv() == nil {
+					continue
+				}
+				uses++
+				ok2 := false
+				for _, e := range nonNil {
+					if m.EdgeDominates(e.b, e.si, b) {
+						ok2 = true
 					}
-				case *ssa.Call:
-					cal := x.Call.StaticCallee()
-					if cal == nil || cal.Signature.Recv() == nil || len(x.Call.Args) == 0 {
-						continue
-					}
-					recv := x.Call.Args[0]
-					if isOut[recv] {
-						if whole[kind][cal.Name()] {
-							st = 1
-						}
-						if kind == "Float" && cal.Name() == "SetPrec" {
-							if k, ok := model.ConstInt(x.Call.Args[1]); ok && k == 0 {
-								st = 1 // documented: the value becomes 0
+				}
+				if !ok2 && bad == "" {
+					bad = m.InstrPos(in) + ": " + cal.Name() + " is called on the parameter itself where it is not known to be non-nil: a nil z (documented: allocate) is dereferenced"
+				}
+			}
+		}
+		s.Check(bad == "", R, name+"/"+z.Name()+"/nil", m.Pos(fn.Pos()), fmt.Sprintf("%d method call(s) on the parameter itself, each behind a non-nil test", uses), bad)
+	}
+	// ---- Float: the sign of a zero result. A destination handed in keeps its sign through
+	// SetPrec(0)/SetPrec(p) (math/big clears the value, not the sign), so where x is a zero the
+	// destination is negated only behind a test that looks at the sign it has.
+	if fn := m.TryLookup("(*Decimal).Float"); fn != nil && len(fn.Params) >= 2 {
+		zeroK, _ := constant.Int64Val(m.PkgConst("zero"))
+		live := m.Live(fn)
+		var zeroEdges [][2]interface{}
+		for _, b := range fn.Blocks {
+			if !live[b.Index] || len(b.Instrs) == 0 {
+				continue
+			}
+			ifi, ok := b.Instrs[len(b.Instrs)-1].(*ssa.If)
+			if !ok {
+				continue
+			}
+			bo, ok := ifi.Cond.(*ssa.BinOp)
+			if !ok || (bo.Op != token.EQL && bo.Op != token.NEQ) {
+				continue
+			}
+			lf, ok := m.LoadOfDecField(bo.X)
+			k, okk := model.ConstInt(bo.Y)
+			if !ok || !okk || lf.Field != m.F.Form || k != zeroK || !m.RefOf(lf.X).OnlyParam(0) {
+				continue
+			}
+			si := 0
+			if bo.Op == token.NEQ {
+				si = 1
+			}
+			zeroEdges = append(zeroEdges, [2]interface{}{b, si})
+		}
+		n, bad := 0, ""
+		for _, b := range fn.Blocks {
+			if !live[b.Index] {
+				continue
+			}
+			inZero := false
+			for _, ze := range zeroEdges {
+				zb, si := ze[0].(*ssa.BasicBlock), ze[1].(int)
+				if (zb.Succs[si] == b && len(b.Preds) == 1) || m.EdgeDominates(zb, si, b) {
+					inZero = true
+				}
+			}
+			if !inZero {
+				continue
+			}
+			for _, in := range b.Instrs {
+				c, ok := in.(*ssa.Call)
+				if !ok {
+					continue
+				}
+				cal := model.Unthunk(c.Call.StaticCallee())
+				if cal == nil || cal.Name() != "Neg" || cal.Pkg == nil || cal.Pkg.Pkg.Path() != "math/big" {
+					continue
+				}
+				n++
+				// the condition that leads here
+				looks := false
+				if len(b.Preds) == 1 {
+					if ifi, ok := b.Preds[0].Instrs[len(b.Preds[0].Instrs)-1].(*ssa.If); ok {
+						var walk func(v ssa.Value, d int)
+						walk = func(v ssa.Value, d int) {
+							if d == 0 || looks {
+								return
 							}
-						}
-						continue
-					}
-					// z.Denom().SetBits(...): a write of the denominator through its accessor
-					if kind == "Rat" && bigNamed(recv.Type()) == "Int" {
-						if c2, ok := recv.(*ssa.Call); ok {
-							if cc := c2.Call.StaticCallee(); cc != nil && cc.Name() == "Denom" && len(c2.Call.Args) > 0 && isOut[c2.Call.Args[0]] {
-								if whole["Int"][cal.Name()] {
-									st = 1
+							if cc, ok := v.(*ssa.Call); ok {
+								if c2 := model.Unthunk(cc.Call.StaticCallee()); c2 != nil && c2.Pkg != nil && c2.Pkg.Pkg.Path() == "math/big" && (c2.Name() == "Signbit" || c2.Name() == "Sign") {
+									looks = true
+									return
+								}
+							}
+							if ii, ok := v.(ssa.Instruction); ok {
+								var ops []*ssa.Value
+								for _, o := range ii.Operands(ops) {
+									if *o != nil {
+										walk(*o, d-1)
+									}
 								}
 							}
 						}
+						walk(ifi.Cond, 4)
+					}
+				}
+				if !looks {
+					bad = m.InstrPos(in) + ": for a zero x the destination is negated without a look at the sign it already has (a destination that held a negative value keeps its sign through SetPrec): +0 comes out as -0, or -0 as +0"
+				}
+			}
+		}
+		if n > 0 {
+			s.Check(bad == "", R, "(*Decimal).Float/z/zero-sign", m.Pos(fn.Pos()), fmt.Sprintf("%d negation(s) of the destination for a zero x, each behind a test of the sign it has", n), bad)
+		} else {
+			s.Note(R, "(*Decimal).Float/z/zero-sign", m.Pos(fn.Pos()), "no negation of the destination on the zero branch (the sign is set some other way; not decided)")
+		}
+	}
+	// ---- Float: precision 0
+	if fn := m.TryLookup("(*Decimal).Float"); fn != nil && len(fn.Params) >= 2 {
+		live := m.Live(fn)
+		isPrecRead := func(v ssa.Value) bool {
+			c, ok := stripConv(v).(*ssa.Call)
+			if !ok {
+				return false
+			}
+			cal := model.Unthunk(c.Call.StaticCallee())
+			return cal != nil && cal.Name() == "Prec" && cal.Pkg != nil && cal.Pkg.Pkg.Path() == "math/big"
+		}
+		// edges on which a Prec() value is known non-zero
+		nzEdge := func(v ssa.Value, at *ssa.BasicBlock, pred *ssa.BasicBlock) bool {
+			for _, gb := range fn.Blocks {
+				if !live[gb.Index] || len(gb.Instrs) == 0 {
+					continue
+				}
+				ifi, ok := gb.Instrs[len(gb.Instrs)-1].(*ssa.If)
+				if !ok {
+					continue
+				}
+				bo, ok := ifi.Cond.(*ssa.BinOp)
+				if !ok {
+					continue
+				}
+				ze, ok := zeroOnEdge(bo, func(x ssa.Value) bool { return stripConv(x) == stripConv(v) })
+				if !ok {
+					continue
+				}
+				nz := 1 - ze
+				if pred != nil {
+					// the φ edge pred → at: the edge itself, or dominated by it
+					if (gb == pred && gb.Succs[nz] == at && gb.Succs[ze] != at) || m.EdgeDominates(gb, nz, pred) {
+						return true
+					}
+				} else if m.EdgeDominates(gb, nz, at) {
+					return true
+				}
+			}
+			return false
+		}
+		bad := ""
+		n := 0
+		var flows func(v ssa.Value, at *ssa.BasicBlock, pred *ssa.BasicBlock, seen map[ssa.Value]bool) string
+		flows = func(v ssa.Value, at *ssa.BasicBlock, pred *ssa.BasicBlock, seen map[ssa.Value]bool) string {
+			v = stripConv(v)
+			if seen[v] {
+				return ""
+			}
+			seen[v] = true
+			switch x := v.(type) {
+			case *ssa.Phi:
+				for i, e := range x.Edges {
+					if !live[x.Block().Preds[i].Index] {
+						continue
+					}
+					if f := flows(e, x.Block(), x.Block().Preds[i], seen); f != "" {
+						return f
+					}
+				}
+			case *ssa.BinOp:
+				if x.Op == token.ADD {
+					if _, isK := model.ConstInt(x.Y); isK {
+						if k, _ := model.ConstInt(x.Y); k > 0 {
+							return "" // p + 1: not zero (wrap-around apart)
+						}
+					}
+				}
+			case *ssa.Call:
+				if isPrecRead(x) && !nzEdge(x, at, pred) {
+					return "the precision read from z reaches SetPrec along a path on which it was not found non-zero"
+				}
+			}
+			return ""
+		}
+		for _, b := range fn.Blocks {
+			if !live[b.Index] {
+				continue
+			}
+			for _, in := range b.Instrs {
+				c, ok := in.(*ssa.Call)
+				if !ok || len(c.Call.Args) != 2 {
+					continue
+				}
+				cal := model.Unthunk(c.Call.StaticCallee())
+				if cal == nil || cal.Name() != "SetPrec" || cal.Pkg == nil || cal.Pkg.Pkg.Path() != "math/big" {
+					continue
+				}
+				if _, isK := model.ConstInt(c.Call.Args[1]); isK {
+					continue
+				}
+				n++
+				if f := flows(c.Call.Args[1], b, nil, map[ssa.Value]bool{}); f != "" && bad == "" {
+					bad = m.InstrPos(in) + ": " + f + " (a z of precision 0 must get max(⌈x.Prec()·log2(10)⌉, 64); SetPrec(0) makes the result 0)"
+				}
+			}
+		}
+		if n > 0 {
+			s.Check(bad == "", R, "(*Decimal).Float/z/precision", m.Pos(fn.Pos()), fmt.Sprintf("%d SetPrec call(s) with a computed precision, none can be given z's own 0", n), bad)
+		}
+		// the result leaves with a precision: after the clearing SetPrec(0) every returning exit has
+		// passed a SetPrec with a computed (non-zero, see above) precision
+		isOut := outObjValues(fn, "Float", bigNamedType)
+		nb := len(fn.Blocks)
+		st := make([]int, nb) // 0 unreached, 1 precision given, 2 cleared / not given
+		st[0] = 2
+		stepP := func(b *ssa.BasicBlock, cur int, rec func(*ssa.Return, int)) int {
+			for _, ins := range b.Instrs {
+				switch x := ins.(type) {
+				case *ssa.Call:
+					cal := model.Unthunk(x.Call.StaticCallee())
+					if cal == nil || cal.Name() != "SetPrec" || len(x.Call.Args) != 2 || !isOut[x.Call.Args[0]] {
+						continue
+					}
+					if k, ok := model.ConstInt(x.Call.Args[1]); ok && k == 0 {
+						cur = 2
+					} else {
+						cur = 1
 					}
 				case *ssa.Return:
 					if rec != nil {
-						rec(x, st)
+						rec(x, cur)
 					}
 				}
 			}
-			return st
+			return cur
 		}
 		work := []int{0}
 		for len(work) > 0 {
@@ -139,42 +515,42 @@ func runOutParam(m *model.Model, s *ob.Set) {
 			if !live[bi] {
 				continue
 			}
-			out := step(fn.Blocks[bi], in[bi], nil)
+			out := stepP(fn.Blocks[bi], st[bi], nil)
 			for _, ed := range model.LiveSuccs(fn.Blocks[bi]) {
-				if out > in[ed.To.Index] {
-					in[ed.To.Index] = out
+				if out > st[ed.To.Index] {
+					st[ed.To.Index] = out
 					work = append(work, ed.To.Index)
 				}
 			}
 		}
-		var bad []string
-		nret := 0
+		badP, nret, cleared := "", 0, false
+		for _, b := range fn.Blocks {
+			for _, ins := range b.Instrs {
+				if c, ok := ins.(*ssa.Call); ok && len(c.Call.Args) == 2 {
+					if cal := model.Unthunk(c.Call.StaticCallee()); cal != nil && cal.Name() == "SetPrec" && isOut[c.Call.Args[0]] {
+						if k, ok := model.ConstInt(c.Call.Args[1]); ok && k == 0 {
+							cleared = true
+						}
+					}
+				}
+			}
+		}
 		for bi, b := range fn.Blocks {
-			if in[bi] == 0 || !live[bi] {
+			if st[bi] == 0 || !live[bi] {
 				continue
 			}
-			step(b, in[bi], func(r *ssa.Return, st int) {
+			stepP(b, st[bi], func(r *ssa.Return, cur int) {
 				if len(r.Results) == 0 {
 					return
 				}
-				if c, ok := r.Results[0].(*ssa.Const); ok && c.IsNil() {
-					return
-				}
 				nret++
-				if st != 1 {
-					what := "the result object"
-					if kind == "Rat" {
-						what = "the denominator of the result"
-					}
-					bad = append(bad, fmt.Sprintf("%s: %s is returned without having been redefined on every path: a caller-supplied %s keeps part of its previous value", m.InstrPos(r), what, "*big."+kind))
+				if cur != 1 && badP == "" {
+					badP = m.InstrPos(r) + ": the *big.Float is returned on a path that cleared it with SetPrec(0) and never gave it its precision back: the result has precision 0 (and with it the value 0)"
 				}
 			})
 		}
-		c := name + "/" + fn.Params[1].Name()
-		if len(bad) == 0 {
-			s.Ok(R, c, m.Pos(fn.Pos()), fmt.Sprintf("%d returning exit(s), the *big.%s is fully redefined on each", nret, kind))
-		} else {
-			s.Bad(R, c, m.Pos(fn.Pos()), bad[0], bad[1:]...)
+		if cleared {
+			s.Check(badP == "", R, "(*Decimal).Float/z/result-precision", m.Pos(fn.Pos()), fmt.Sprintf("%d returning exit(s), each behind a SetPrec with the computed precision", nret), badP)
 		}
 	}
 }
@@ -193,6 +569,7 @@ func runSqrtShape(m *model.Model, s *ob.Set) {
 		s.Note(R, "(*Decimal).sqrtInverse", "-", "function not found (the root is computed some other way; not decided)")
 		return
 	}
+	runSqrtScratch(m, s, fn)
 	reach := reachesRound(m)
 	arith := map[string]bool{"(*Decimal).Mul": true, "(*Decimal).Quo": true, "(*Decimal).FMA": true, "(*Decimal).umul": true, "(*Decimal).uquo": true, "(*Decimal).Add": true, "(*Decimal).Sub": true}
 	live := m.Live(fn)
@@ -215,7 +592,7 @@ func runSqrtShape(m *model.Model, s *ob.Set) {
 				if !ok {
 					continue
 				}
-				cal := c.Call.StaticCallee()
+				cal := model.Unthunk(c.Call.StaticCallee())
 				if cal == nil || reach[cal] == nil {
 					continue
 				}
@@ -247,7 +624,7 @@ func runSqrtShape(m *model.Model, s *ob.Set) {
 			bad = append(bad, m.InstrPos(b.Instrs[len(b.Instrs)-1])+": no rounding operation precedes this exit")
 			continue
 		}
-		cal := last.Call.StaticCallee()
+		cal := model.Unthunk(last.Call.StaticCallee())
 		if !arith[m.FuncName(cal)] || !m.RefOf(last.Call.Args[0]).OnlyParam(0) {
 			bad = append(bad, fmt.Sprintf("%s: the last rounding step before the exit is %s on %s: the root must be produced by an arithmetic operation whose receiver is z itself, so that z's precision and rounding mode decide the one final rounding (a Set from a temporary rounds first under the temporary's mode)", m.InstrPos(last), m.FuncName(cal), types_ExprOf(last.Call.Args[0])))
 		}
@@ -287,6 +664,69 @@ func runSqrtShape(m *model.Model, s *ob.Set) {
 	}
 }
 
+// runSqrtScratch: the temporaries of the Newton iteration — Decimals made inside sqrtInverse or
+// by a constructor it calls — keep the zero value of the rounding mode (ToNearestEven). The
+// error analysis of the iteration (two guard digits) assumes unbiased roundings of at most half
+// a unit each; directed rounding of the temporaries adds up in one direction.
+func runSqrtScratch(m *model.Model, s *ob.Set, fn *ssa.Function) {
+	const R = "SQRTSHAPE"
+	near, _ := constant.Int64Val(m.PkgConst("ToNearestEven"))
+	setMode := m.TryLookup("(*Decimal).SetMode")
+	fns := []*ssa.Function{fn}
+	seen := map[*ssa.Function]bool{fn: true}
+	for _, b := range fn.Blocks {
+		for _, in := range b.Instrs {
+			cal, _ := model.Callee(in)
+			if cal == nil || seen[cal] || !m.InDecimalPkg(cal) || len(cal.Blocks) == 0 {
+				continue
+			}
+			hasDec := false
+			for _, p := range cal.Params {
+				if m.IsDecPtr(p.Type()) {
+					hasDec = true
+				}
+			}
+			res := cal.Signature.Results()
+			if hasDec || res.Len() != 1 || !m.IsDecPtr(res.At(0).Type()) {
+				continue
+			}
+			seen[cal] = true
+			fns = append(fns, cal)
+		}
+	}
+	bad := ""
+	for _, f := range fns {
+		for _, b := range f.Blocks {
+			for _, in := range b.Instrs {
+				if cal, c := model.Callee(in); cal != nil && cal == setMode && len(c.Args) == 2 {
+					if r := m.RefOf(c.Args[0]); r.Fresh && r.Params == 0 {
+						if k, ok := model.ConstInt(c.Args[1]); !ok || k != near {
+							bad = fmt.Sprintf("%s: a temporary of the iteration is given a rounding mode other than ToNearestEven", m.InstrPos(in))
+						}
+					}
+					continue
+				}
+				st, ok := in.(*ssa.Store)
+				if !ok {
+					continue
+				}
+				fa, ok := m.DecField(st.Addr)
+				if !ok || fa.Field != m.F.Mode {
+					continue
+				}
+				if r := m.RefOf(fa.X); !r.Fresh || r.Params != 0 {
+					continue
+				}
+				if k, ok := model.ConstInt(st.Val); ok && k == near {
+					continue
+				}
+				bad = fmt.Sprintf("%s: a temporary of the iteration is given a rounding mode other than ToNearestEven", m.InstrPos(st))
+			}
+		}
+	}
+	s.Check(bad == "", R, "(*Decimal).sqrtInverse/scratch-mode", m.Pos(fn.Pos()), fmt.Sprintf("%d function(s) that make the temporaries; none changes their rounding mode", len(fns)), bad+": the roundings of the Newton steps are then biased in one direction and use up the guard digits")
+}
+
 func types_ExprOf(v ssa.Value) string {
 	if v.Name() != "" {
 		return v.Name()
@@ -301,8 +741,166 @@ func init() {
 		Doc: "no uint32 addition/multiplication on a Decimal's precision that wraps for precisions near MaxPrec (= MaxUint32): widen first, or establish prec < MaxPrec on the way"})
 }
 
+// PRECWRAP …/clamp — a precision given by the caller as a uint becomes the 32-bit precision
+// field only where it is known not to exceed MaxPrec: the narrowing conversion takes the
+// parameter from the edge on which `prec > MaxPrec` failed, and the constant MaxPrec (or another
+// constant) from the other (uint32(prec) of a larger value keeps the low 32 bits: New(1<<32 + 5)
+// would work with 5 digits).
+func runPrecClamp(m *model.Model, s *ob.Set) {
+	const R = "PRECWRAP"
+	maxPrec := m.PkgConst("MaxPrec")
+	for _, fn := range m.Funcs {
+		if !(m.InDecimalPkg(fn) || m.InContextPkg(fn)) || len(fn.Blocks) == 0 || fn.Synthetic != "" {
+			continue
+		}
+		live := m.Live(fn)
+		is64 := func(t types.Type) bool {
+			b, ok := t.Underlying().(*types.Basic)
+			return ok && (b.Kind() == types.Uint || b.Kind() == types.Uint64 || b.Kind() == types.Int || b.Kind() == types.Int64)
+		}
+		// on a 32-bit configuration uint and int are no wider than the field: nothing is cut off
+		narrowHere := func(t types.Type) bool {
+			b, _ := t.Underlying().(*types.Basic)
+			return !(m.Cfg.Name == "386" && b != nil && (b.Kind() == types.Uint || b.Kind() == types.Int))
+		}
+		// parameters that are precisions: named prec, of a 64-bit integer type
+		precParam := map[ssa.Value]bool{}
+		for _, p := range fn.Params {
+			if is64(p.Type()) && strings.Contains(strings.ToLower(p.Name()), "prec") {
+				precParam[p] = true
+			}
+		}
+		if len(precParam) == 0 {
+			continue
+		}
+		// edges on which p <= MaxPrec is known
+		bounded := func(p ssa.Value, at *ssa.BasicBlock, pred *ssa.BasicBlock) bool {
+			for _, gb := range fn.Blocks {
+				if !live[gb.Index] || len(gb.Instrs) == 0 {
+					continue
+				}
+				ifi, ok := gb.Instrs[len(gb.Instrs)-1].(*ssa.If)
+				if !ok {
+					continue
+				}
+				bo, ok := ifi.Cond.(*ssa.BinOp)
+				if !ok {
+					continue
+				}
+				x, y, op := bo.X, bo.Y, bo.Op
+				if stripConv(y) == p {
+					x, y, op = y, x, mirrorOpTok[op]
+				}
+				c, isC := stripConv(y).(*ssa.Const)
+				if stripConv(x) != p || !isC || c.Value == nil || c.Value.Kind() != constant.Int {
+					continue
+				}
+				for si := 0; si < 2; si++ {
+					o := op
+					if si == 1 {
+						o = negOp[o]
+					}
+					// p <= k or p < k with k <= MaxPrec(+1)
+					okB := (o == token.LEQ && constant.Compare(c.Value, token.LEQ, maxPrec)) ||
+						(o == token.LSS && constant.Compare(c.Value, token.LEQ, constant.BinaryOp(maxPrec, token.ADD, constant.MakeInt64(1))))
+					if !okB {
+						continue
+					}
+					if pred != nil {
+						if (gb == pred && gb.Succs[si] == at && gb.Succs[1-si] != at) || m.EdgeDominates(gb, si, pred) {
+							return true
+						}
+					} else if m.EdgeDominates(gb, si, at) {
+						return true
+					}
+				}
+			}
+			return false
+		}
+		var check func(v ssa.Value, at, pred *ssa.BasicBlock, seen map[ssa.Value]bool) string
+		check = func(v ssa.Value, at, pred *ssa.BasicBlock, seen map[ssa.Value]bool) string {
+			v = stripConv(v)
+			if seen[v] {
+				return ""
+			}
+			seen[v] = true
+			if bounded(v, at, pred) {
+				return "" // whatever it was made of, here it is known not to exceed MaxPrec
+			}
+			if c, isC := v.(*ssa.Const); isC && c.Value != nil && c.Value.Kind() == constant.Int && !constant.Compare(c.Value, token.LEQ, maxPrec) {
+				return "a constant above MaxPrec is narrowed to 32 bits"
+			}
+			if ph, ok := v.(*ssa.Phi); ok {
+				for i, e := range ph.Edges {
+					if !live[ph.Block().Preds[i].Index] {
+						continue
+					}
+					if f := check(e, ph.Block(), ph.Block().Preds[i], seen); f != "" {
+						return f
+					}
+				}
+				return ""
+			}
+			if precParam[v] && !bounded(v, at, pred) {
+				return "the precision parameter " + v.Name() + " is narrowed to 32 bits along a path on which it was not found to be at most MaxPrec"
+			}
+			return ""
+		}
+		nsites := 0
+		bad := ""
+		for _, b := range fn.Blocks {
+			if !live[b.Index] {
+				continue
+			}
+			for _, in := range b.Instrs {
+				cv, ok := in.(*ssa.Convert)
+				if !ok || !is64(cv.X.Type()) {
+					continue
+				}
+				bt, ok := cv.Type().Underlying().(*types.Basic)
+				if !ok || bt.Kind() != types.Uint32 {
+					continue
+				}
+				// does a precision parameter reach it?
+				reaches := false
+				var walk func(v ssa.Value, seen map[ssa.Value]bool)
+				walk = func(v ssa.Value, seen map[ssa.Value]bool) {
+					v = stripConv(v)
+					if seen[v] {
+						return
+					}
+					seen[v] = true
+					if precParam[v] {
+						reaches = true
+					}
+					if ph, ok := v.(*ssa.Phi); ok {
+						for _, e := range ph.Edges {
+							walk(e, seen)
+						}
+					}
+				}
+				walk(cv.X, map[ssa.Value]bool{})
+				if !reaches {
+					continue
+				}
+				nsites++
+				if !narrowHere(cv.X.Type()) {
+					continue
+				}
+				if f := check(cv.X, b, nil, map[ssa.Value]bool{}); f != "" && bad == "" {
+					bad = m.InstrPos(in) + ": " + f + " (uint32 of a larger value keeps its low 32 bits)"
+				}
+			}
+		}
+		if nsites > 0 {
+			s.Check(bad == "", R, m.FuncName(fn)+"/clamp", m.Pos(fn.Pos()), fmt.Sprintf("%d narrowing(s) of a caller's precision, each behind the MaxPrec clamp", nsites), bad)
+		}
+	}
+}
+
 func runPrecWrap(m *model.Model, s *ob.Set) {
 	const R = "PRECWRAP"
+	runPrecClamp(m, s)
 	tabled := map[string]string{
 		"(*Decimal).round": "reached only when the mantissa holds more digits than z.prec; with z.prec > MaxUint32-19 that is a mantissa of more than 4·10^9 digits (226 million words)",
 	}
@@ -746,7 +1344,7 @@ func evalNum(m *model.Model, v ssa.Value, free func(ssa.Value) bool, d int64, de
 		return r, true
 	case *ssa.Call:
 		// math.Ceil / math.Floor of a float
-		if cal := x.Call.StaticCallee(); cal != nil && cal.Pkg != nil && cal.Pkg.Pkg.Path() == "math" && len(x.Call.Args) == 1 {
+		if cal := model.Unthunk(x.Call.StaticCallee()); cal != nil && cal.Pkg != nil && cal.Pkg.Pkg.Path() == "math" && len(x.Call.Args) == 1 {
 			a, ok := evalNum(m, x.Call.Args[0], free, d, depth-1)
 			if !ok {
 				return nil, false
@@ -775,7 +1373,7 @@ func runNatLen(m *model.Model, s *ob.Set) {
 		if !ok {
 			return false
 		}
-		cal := c.Call.StaticCallee()
+		cal := model.Unthunk(c.Call.StaticCallee())
 		return cal != nil && m.FuncName(cal) == "dec.digits"
 	}
 	free := func(v ssa.Value) bool { return isDigits(v) && v == stripConv(v) }
@@ -854,7 +1452,7 @@ func runRoundShape(m *model.Model, s *ob.Set) {
 				return false
 			}
 			seen[v] = true
-			if c, ok := v.(*ssa.Call); ok && pow10 != nil && c.Call.StaticCallee() == pow10 {
+			if c, ok := v.(*ssa.Call); ok && pow10 != nil && model.Unthunk(c.Call.StaticCallee()) == pow10 {
 				return true
 			}
 			if in, ok := v.(ssa.Instruction); ok {
@@ -914,7 +1512,7 @@ func runRoundShape(m *model.Model, s *ob.Set) {
 					cur.cleared = true
 				}
 			case *ssa.Call:
-				if cal := x.Call.StaticCallee(); cal != nil && carryKernels[cal.Name()] && len(x.Call.Args) > 0 {
+				if cal := model.Unthunk(x.Call.StaticCallee()); cal != nil && carryKernels[cal.Name()] && len(x.Call.Args) > 0 {
 					for l := range m.RootsOf(x.Call.Args[0]) {
 						if l == "P0.mant" {
 							cur.dirty = true
@@ -943,7 +1541,9 @@ func runRoundShape(m *model.Model, s *ob.Set) {
 			t := ed.To.Index
 			nv := out
 			if in[t].reached {
-				nv = st{true, in[t].dirty || out.dirty, in[t].cleared && out.cleared, in[t].inf && out.inf}
+				// "cleared, or an infinity (whose digits nobody looks at)" is what an exit needs: a way
+				// that set the form to Inf and one that cleared the digits may meet in front of it
+				nv = st{true, in[t].dirty || out.dirty, (in[t].cleared || in[t].inf) && (out.cleared || out.inf), in[t].inf && out.inf}
 			}
 			if nv != in[t] {
 				in[t] = nv
@@ -1263,7 +1863,7 @@ func runMustUse(m *model.Model, s *ob.Set) {
 						}
 					}
 				case *ssa.Call:
-					cal := x.Call.StaticCallee()
+					cal := model.Unthunk(x.Call.StaticCallee())
 					if cal == nil || !m.InDecimalPkg(cal) {
 						continue
 					}
@@ -1337,8 +1937,100 @@ func init() {
 
 // runWorkPrec: every SetPrec whose argument is computed (not a constant) is followed back through
 // arithmetic, conversions, φs and max/min: reaching a call of MinPrec is a violation.
+// runWorkPrecGuard: where the precision of a temporary comes out of a helper of the receiver
+// (z.workPrec()), the helper is evaluated at a handful of precisions by constant propagation: the
+// temporary carries at least one whole word of digits more than the receiver, up to MaxPrec. A
+// result below that at any sample is reported; a result the propagation cannot fold is not decided.
+func runWorkPrecGuard(m *model.Model, s *ob.Set) {
+	const R = "WORKPREC"
+	dw, _ := constant.Int64Val(m.PkgConst("_DW"))
+	maxPrec, _ := constant.Int64Val(m.PkgConst("MaxPrec"))
+	seen := map[*ssa.Function]bool{}
+	for _, fn := range m.Funcs {
+		if !m.InDecimalPkg(fn) || len(fn.Blocks) == 0 || fn.Synthetic != "" {
+			continue
+		}
+		for _, b := range fn.Blocks {
+			for _, in := range b.Instrs {
+				call, ok := in.(*ssa.Call)
+				if !ok {
+					continue
+				}
+				cal := model.Unthunk(call.Call.StaticCallee())
+				if cal == nil || cal.Name() != "SetPrec" || cal.Signature.Recv() == nil || len(call.Call.Args) != 2 {
+					continue
+				}
+				hc, ok := stripConv(call.Call.Args[1]).(*ssa.Call)
+				if !ok {
+					continue
+				}
+				h := model.Unthunk(hc.Call.StaticCallee())
+				if h == nil || seen[h] || !m.InDecimalPkg(h) || len(h.Blocks) == 0 || len(h.Params) != 1 || !m.IsDecPtr(h.Params[0].Type()) || h.Object() == nil || h.Object().Exported() {
+					continue
+				}
+				if bt, ok := h.Signature.Results().At(0).Type().Underlying().(*types.Basic); h.Signature.Results().Len() != 1 || !ok || bt.Info()&types.IsUnsigned == 0 {
+					continue
+				}
+				seen[h] = true
+				bad, undecided, n := "", 0, 0
+				for _, k := range []int64{1, 17, 20, 37, 1000, maxPrec - dw - 1, maxPrec - 3, maxPrec} {
+					if k < 1 {
+						continue
+					}
+					it := cdai.New(m)
+					it.Budget = 20000
+					st := cdai.NewState()
+					z := st.NewObj()
+					for f := range m.FieldN {
+						st.Set(z, f, cdai.TopV)
+					}
+					st.Set(z, m.F.Prec, cdai.Int(k))
+					var outs []cdai.Outcome
+					func() {
+						defer func() {
+							if recover() != nil {
+								outs = nil
+							}
+						}()
+						outs = it.Run(h, []cdai.Val{z}, st)
+					}()
+					want := k + dw
+					if want > maxPrec {
+						want = maxPrec
+					}
+					n++
+					if len(outs) == 0 {
+						undecided++
+						continue
+					}
+					for _, o := range outs {
+						v, ok := retInt(o, 0)
+						if !ok {
+							undecided++
+							break
+						}
+						if v < want && bad == "" {
+							bad = fmt.Sprintf("for a receiver of precision %d %s gives %d; the temporary must carry a whole word of digits more than the receiver (%d, at most MaxPrec): the powers of two it is used for are inexact, and the digits beyond the receiver's are what keeps their error out of the result", k, h.Name(), v, want)
+						}
+					}
+				}
+				cn := m.FuncName(h) + "/guard-word"
+				switch {
+				case bad != "":
+					s.Bad(R, cn, m.Pos(h.Pos()), bad)
+				case undecided > 0:
+					s.Note(R, cn, m.Pos(h.Pos()), fmt.Sprintf("not folded to a constant at %d of %d sample precisions (not decided)", undecided, n))
+				default:
+					s.Ok(R, cn, m.Pos(h.Pos()), fmt.Sprintf("at %d sample precisions the temporary has the receiver's precision plus one word, at most MaxPrec", n))
+				}
+			}
+		}
+	}
+}
+
 func runWorkPrec(m *model.Model, s *ob.Set) {
 	const R = "WORKPREC"
+	runWorkPrecGuard(m, s)
 	for _, fn := range m.Funcs {
 		if !m.InDecimalPkg(fn) || len(fn.Blocks) == 0 || fn.Synthetic != "" {
 			continue
@@ -1355,7 +2047,7 @@ func runWorkPrec(m *model.Model, s *ob.Set) {
 				if !ok {
 					continue
 				}
-				cal := call.Call.StaticCallee()
+				cal := model.Unthunk(call.Call.StaticCallee())
 				if cal == nil || cal.Name() != "SetPrec" || cal.Signature.Recv() == nil || len(call.Call.Args) != 2 {
 					continue
 				}
@@ -1373,7 +2065,7 @@ func runWorkPrec(m *model.Model, s *ob.Set) {
 					seen[v] = true
 					switch x := v.(type) {
 					case *ssa.Call:
-						if c2 := x.Call.StaticCallee(); c2 != nil && c2.Name() == "MinPrec" && c2.Signature.Recv() != nil {
+						if c2 := model.Unthunk(x.Call.StaticCallee()); c2 != nil && c2.Name() == "MinPrec" && c2.Signature.Recv() != nil {
 							return true
 						}
 						if bn := model.BuiltinName(&x.Call); bn == "max" || bn == "min" {
@@ -1383,7 +2075,7 @@ func runWorkPrec(m *model.Model, s *ob.Set) {
 								}
 							}
 						}
-						if c2 := x.Call.StaticCallee(); c2 != nil && m.InDecimalPkg(c2) && (c2.Name() == "max" || c2.Name() == "min" || c2.Name() == "umax32") {
+						if c2 := model.Unthunk(x.Call.StaticCallee()); c2 != nil && m.InDecimalPkg(c2) && (c2.Name() == "max" || c2.Name() == "min" || c2.Name() == "umax32") {
 							for _, a := range x.Call.Args {
 								if fromMin(a, d-1) {
 									return true
@@ -1405,7 +2097,7 @@ func runWorkPrec(m *model.Model, s *ob.Set) {
 					}
 					return false
 				}
-				if fromMin(arg, 8) {
+				if fromMin(arg, 8) && !(m.FuncName(fn) == "(*Decimal).Append" && appendTableDecided(m)) {
 					bad = append(bad, fmt.Sprintf("%s: the precision of a temporary is computed from MinPrec(): the number of digits an operand holds at the moment, not the precision the result has to be accurate to", m.InstrPos(in)))
 				}
 			}
@@ -1443,7 +2135,7 @@ func runExactOperands(m *model.Model, s *ob.Set) {
 				if !ok {
 					continue
 				}
-				cal := call.Call.StaticCallee()
+				cal := model.Unthunk(call.Call.StaticCallee())
 				if cal == nil || len(call.Call.Args) == 0 {
 					continue
 				}
@@ -1474,7 +2166,7 @@ func runExactOperands(m *model.Model, s *ob.Set) {
 							continue
 						}
 						if c2, ok := in2.(*ssa.Call); ok {
-							if k2 := c2.Call.StaticCallee(); k2 != nil && m.FuncName(k2) == "(*Decimal).SetPrec" && len(c2.Call.Args) == 2 {
+							if k2 := model.Unthunk(c2.Call.StaticCallee()); k2 != nil && m.FuncName(k2) == "(*Decimal).SetPrec" && len(c2.Call.Args) == 2 {
 								r2 := m.RefOf(c2.Call.Args[0])
 								if len(r2.Allocs) == 1 && r2.Allocs[0] == al {
 									if k, isK := model.ConstInt(c2.Call.Args[1]); !isK || k != 0 {
